@@ -13,6 +13,8 @@ from fractions import Fraction
 
 import torch
 
+torch.set_num_threads(1)  # tiny tensors: threads only add contention on a shared machine
+
 from vlib import cb, cl, clz, cn, co, cq, cz, coq_eval_bools, coq_eval_print, exc_kind, load_corpus, shrink
 
 IMPORTS = "From PV Require Import C01.Obs C01.Spec C01.Model.\n"
